@@ -84,10 +84,20 @@ pub fn load_known(args: &Args) -> std::sync::Arc<BTreeSet<(String, String)>> {
         if let Ok(j) = J::parse(&text) {
             for e in j.get("findings").and_then(J::as_arr).unwrap_or(&[]) {
                 if e.get("status").and_then(J::as_str) == Some("known") {
-                    let p = e.get("property").and_then(J::as_str).unwrap_or("").to_string();
+                    let mut props: Vec<String> = vec![];
+                    if let Some(p) = e.get("property").and_then(J::as_str) {
+                        props.push(p.to_string());
+                    }
+                    for p in e.get("also_properties").and_then(J::as_arr).unwrap_or(&[]) {
+                        if let Some(p) = p.as_str() {
+                            props.push(p.to_string());
+                        }
+                    }
                     for s in e.get("signatures").and_then(J::as_arr).unwrap_or(&[]) {
                         if let Some(s) = s.as_str() {
-                            set.insert((p.clone(), s.to_string()));
+                            for p in &props {
+                                set.insert((p.clone(), s.to_string()));
+                            }
                         }
                     }
                 }
